@@ -547,6 +547,7 @@ Proof.
   - destruct (recv_alive s); [|exact H]. unfold J; simpl. split; intros; lia.
   - exact H.
   - exact H.
+  - exact H.
 Qed.
 
 Lemma run_J c evs : forall s, J s -> J (run c s evs).
